@@ -12,7 +12,7 @@ COQ_HEAD = {"x": "EX", "y": "EY", "z": "EZ", "s": "ES", "t": "ET", "h": "EH", "r
             "rz": "ERz", "rxx": "ERxx", "ryy": "ERyy", "rzz": "ERzz", "swap": "ESwap",
             "sqrt_swap": "ESqrtSwap", "i_swap": "EISwap", "sqrt_i_swap": "ESqrtISwap", "u1": "EU1",
             "u2": "EU2", "u3": "EU3", "qft": "EQft", "qft_swapped": "EQftSwapped"}
-ASSEMBLY = ("mul", "mulassign", "append", "pushsingles", "pushfront", "mulsingles", "mulrefmut")
+ASSEMBLY = ("mul", "mulassign", "append", "pushsingles", "pushfront", "mulsingles", "mulrefmut", "pushback", "wrapped")
 
 
 def to_harness(e):
